@@ -544,6 +544,32 @@ def ref_twins_doc() -> dict:
     )
 
 
+def allof_inline_twin(doc: dict) -> tuple[dict, list[str]]:
+    """Rewrite every `$ref` *member of an allOf* by an inline copy of the referenced schema.  Returns the twin and the
+    module names of the component schemas the rewrite did not touch: their modules must not notice the difference
+    (using a schema through a reference must not change the referenced class)."""
+    from openapi_python_client import utils
+
+    d = copy.deepcopy(doc)
+    schemas = d["components"]["schemas"]
+
+    def inline(s: Any, depth: int = 0) -> Any:
+        if isinstance(s, dict) and "$ref" in s and depth < 8:
+            return inline(copy.deepcopy(doc["components"]["schemas"][s["$ref"].rsplit("/", 1)[1]]), depth + 1)
+        if isinstance(s, dict) and "allOf" in s:
+            s = dict(s)
+            s["allOf"] = [inline(m, depth + 1) for m in s["allOf"]]
+        return s
+
+    untouched = []
+    for name, s in schemas.items():
+        if isinstance(s, dict) and "allOf" in s:
+            schemas[name] = inline(s)
+        else:
+            untouched.append(f"models/{utils.PythonIdentifier(name, '')}.py")
+    return d, untouched
+
+
 def ref_inline_twins(tier: str = "quick", known: list | None = None, **_: Any) -> dict:
     """C20 replay: endpoint modules generated from referenced components are byte-identical to the inline twin."""
     from . import skeletons as sk
@@ -557,6 +583,16 @@ def ref_inline_twins(tier: str = "quick", known: list | None = None, **_: Any) -
         diff = sorted(k for k in set(a) | set(b) if a.get(k) != b.get(k))
         if diff or ea != eb:
             wit.append({"what": f"{name}: referenced components do not generate the same code as their inline twins", "input": {"doc": name}, "observed": {"differing_files": diff[:8], "errors_ref": ea[:2], "errors_inline": eb[:2]}, "reproduced": True, "replay_func": "vlib.replay_checks:replay_ref_inline"})
+    # schema position: an allOf member by reference vs. an inline copy leaves the referenced class as it is
+    d = sk.model_skeletons()["allof"]
+    twin, untouched = allof_inline_twin(d)
+    a, ea = _gen_files(d)
+    b, eb = _gen_files(twin)
+    n += 1
+    diff = sorted(k for k in untouched if a.get(k) != b.get(k))
+    if diff:
+        wit.append({"what": "allof: a class changes when another schema uses it as an allOf member by reference instead of an inline copy", "input": {"doc": "allof-members"}, "observed": {"differing_files": diff[:8], "errors_ref": ea[:2], "errors_inline": eb[:2]}, "reproduced": True, "replay_func": "vlib.replay_checks:replay_ref_inline"})
+    docs["allof-members"] = d
     return result("violated" if wit else "holds", f"{n} reference/inline twin pairs byte-identical", queries=n, witnesses=wit, cases=[f"twin:{k}" for k in docs], stubs=["replay oracle: concrete runs, not a solver verdict"])
 
 
@@ -564,6 +600,13 @@ def replay_ref_inline(w: dict) -> dict:
     from . import skeletons as sk
 
     docs = {"ref_twins": ref_twins_doc(), "bodies": sk.endpoint_skeletons()["bodies"], "responses": sk.endpoint_skeletons()["responses"]}
+    if w["input"]["doc"] == "allof-members":
+        d = sk.model_skeletons()["allof"]
+        twin, untouched = allof_inline_twin(d)
+        a, _ = _gen_files(d)
+        b, _ = _gen_files(twin)
+        diff = sorted(k for k in untouched if a.get(k) != b.get(k))
+        return {"reproduced": bool(diff), "observed": diff[:8]}
     d = docs[w["input"]["doc"]]
     a, ea = _gen_files(d)
     b, eb = _gen_files(inline_twin(d))
